@@ -266,3 +266,42 @@ def nearest_in_polyhedron(W, a, c):
                 if best is None or d2 < best:
                     best, bestp = d2, p
     return bestp
+
+
+def alpha_float(W, n):
+    """max of w_n . x over { x in C, |x| <= 1 } for unit or non-unit rows, divided by |w_n| (dimension <= 3), float.
+    Candidates (VOConeConst!AlphaCands generalised): the own normal if inside the cone, the normalised projections of w_n
+    onto each facet plane if inside, the extreme rays; 0 otherwise."""
+    import numpy as np
+    W = np.asarray(W, dtype=float)
+    K, m = W.shape
+    w = W[n] / np.linalg.norm(W[n])
+    tol = 1e-10
+
+    def inside(x):
+        return bool(np.all(W @ x >= -tol * max(1.0, np.abs(W).max())))
+
+    best = 0.0
+    if inside(w):
+        best = 1.0
+    cands = []
+    for k in range(K):
+        nk = W[k] / np.linalg.norm(W[k])
+        p = w - (w @ nk) * nk
+        if np.linalg.norm(p) > 1e-12:
+            cands.append(p / np.linalg.norm(p))
+    if m == 2:
+        for k in range(K):
+            for r in ((-W[k][1], W[k][0]), (W[k][1], -W[k][0])):
+                cands.append(np.array(r) / np.linalg.norm(r))
+    else:
+        for a in range(K):
+            for b in range(a + 1, K):
+                r = np.cross(W[a], W[b])
+                if np.linalg.norm(r) > 1e-12:
+                    cands.append(r / np.linalg.norm(r))
+                    cands.append(-r / np.linalg.norm(r))
+    for x in cands:
+        if inside(x):
+            best = max(best, float(w @ x))
+    return best
